@@ -58,8 +58,15 @@ def opWalk (args impl : List String) : Verdict :=
       match walk mem b with
       | .error e => expectTokens [toString e.code] impl [s!"walk:rc{e.code}"]
       | .ok (ver, blocks, rc) =>
+        -- the public rewind after the walk: absolute, hence the same as rewinding the freshly opened parser
+        let rw : String := match init mem b with
+          | .ok p0 =>
+            (match p0.rewind with
+             | .ok p1 => s!"R0:{p1.curType}:{p1.curLength}:{if p1.isCurrentBlockValid then 1 else 0}"
+             | .error e => s!"R{e.code}")
+          | .error e => s!"R{e.code}"
         let toks := ["0", toString ver] ++
-          blocks.map (fun (ty, len, body) => s!"{ty}:{len}:{bodyTok body}") ++ [toString rc]
+          blocks.map (fun (ty, len, body) => s!"{ty}:{len}:{bodyTok body}") ++ [toString rc, rw]
         expectTokens toks impl [s!"walk:blocks{blocks.length}", s!"walk:end{rc}"]
     | _, _ => .badCase "walk"
   | _ => .badCase "walk"
